@@ -67,7 +67,10 @@ Definition tail_ok (tail : bytes) : bool :=
   | None => false
   end.
 Definition infix_candidate (sp_sfx listing_sfx : option bytes) (fixed : bytes) (name : bytes) : option bytes :=
-  let stem := file_stem name in
+  (* the name must end with "." ++ the suffix asked for (which may contain dots, as may the rest of the name) *)
+  match (match listing_sfx with Some l => strip_suffix (dot :: l) name | None => Some name end) with
+  | None => None
+  | Some stem =>
   let o_stem := match listing_sfx, sp_sfx with
                 | Some l, Some s => if beq l [103; 122] && negb (beq s [103; 122]) then strip_suffix (dot :: s) stem else Some stem
                 | _, _ => Some stem
@@ -84,18 +87,17 @@ Definition infix_candidate (sp_sfx listing_sfx : option bytes) (fixed : bytes) (
       | Some e => if tail_ok (skipn (S e) rest) then Some (firstn e rest) else None
       end
     end
+  end
   end.
 
 (* never panics any more; the option is kept for the callers *)
 Definition filter_files (off : Z) (sp_sfx : option bytes) (fixed : bytes) (files : list bytes) (flt : infix_filter) (o_sfx : option bytes)
   : option (list bytes) :=
   filter_opt (fun n =>
-      if match o_sfx with Some s => ext_is n s | None => true end then
-        match infix_candidate sp_sfx o_sfx fixed n with
-        | None => Some false
-        | Some i => Some (filter_infix off flt i)
-        end
-      else Some false) files.
+      match infix_candidate sp_sfx o_sfx fixed n with
+      | None => Some false
+      | Some i => Some (filter_infix off flt i)
+      end) files.
 
 Record selector := { sel_plain : bool; sel_gz : bool; sel_rcur : bool; sel_custom : option bytes }.
 
@@ -128,8 +130,7 @@ Definition has_name_part (sp : file_spec) : bool :=
   || match fdisc sp with Some (_ :: _) => true | _ => false end || fts sp.
 
 Definition index_of_listed (sp : file_spec) (name : bytes) : option N :=
-  let stem := file_stem name in
-  let infix := if has_name_part sp then Some (after_last [uscore; r_char] stem) else str_from stem 1 in
+  let infix := if has_name_part sp then Some (after_last [uscore; r_char] name) else str_from name 1 in
   match infix with
   | None => None
   | Some i => (* the number ends at the first dot: the stem of a compressed file still carries the suffix *)
@@ -204,5 +205,6 @@ Definition collision_free_infix (off : Z) (sp : file_spec) (fixed : bytes) (f : 
 Definition ts_infix_from_name (sp : file_spec) (fixed : bytes) (name : bytes) : option bytes :=
   match find_sub [114; 88; 88; 88; 88; 88] (as_name sp fixed (Some [114; 88; 88; 88; 88; 88])) with
   | None => None
-  | Some idx => if Nat.leb (idx + 20) (length name) then Some (firstn 20 (skipn idx name)) else None
+  | Some idx => (* a name that is too short carries no time stamp *)
+                if Nat.leb (idx + 20) (length name) then Some (firstn 20 (skipn idx name)) else Some []
   end.
